@@ -60,9 +60,9 @@ func ParseDuration(s string) (Duration, error) {
 	i := 0
 	unitI := 0
 
-	negative := int64(1)
+	negative := false
 	if s[i] == '-' {
-		negative = int64(-1)
+		negative = true
 		i++
 	}
 
@@ -76,11 +76,13 @@ func ParseDuration(s string) (Duration, error) {
 	// ([0-9]+)(d|h|m|s|ms) ...
 	for i < len(s) && unitI < len(unitOrder) {
 		if unicode.IsDigit(rune(s[i])) {
+			// The magnitude is accumulated as a negative number so that the minimum duration
+			// (-9223372036854775808ms), whose magnitude does not fit in an int64, can be parsed.
 			digit := int64(s[i] - '0')
-			if value > (math.MaxInt64-digit)/10 {
+			if value < (math.MinInt64+digit)/10 {
 				return Duration{}, fmt.Errorf("%w: overflow", errDuration)
 			}
-			value = value*10 + digit
+			value = value*10 - digit
 			hasValue = true
 			i++
 		} else if s[i] == 'd' || s[i] == 'h' || s[i] == 'm' || s[i] == 's' {
@@ -109,11 +111,11 @@ func ParseDuration(s string) (Duration, error) {
 			}
 
 			millis := unitToMillis[unit]
-			if millis > 0 && value > math.MaxInt64/millis {
+			if millis > 0 && value < math.MinInt64/millis {
 				return Duration{}, fmt.Errorf("%w: overflow", errDuration)
 			}
 			product := value * millis
-			if total > math.MaxInt64-product {
+			if total < math.MinInt64-product {
 				return Duration{}, fmt.Errorf("%w: overflow", errDuration)
 			}
 			total = total + product
@@ -135,7 +137,14 @@ func ParseDuration(s string) (Duration, error) {
 		return Duration{}, fmt.Errorf("%w: invalid duration", errDuration)
 	}
 
-	return Duration{value: negative * total}, nil
+	if !negative {
+		if total == math.MinInt64 {
+			return Duration{}, fmt.Errorf("%w: overflow", errDuration)
+		}
+		total = -total
+	}
+
+	return Duration{value: total}, nil
 }
 
 // Equal returns true if the input represents the same duration
@@ -176,18 +185,18 @@ func (d Duration) String() string {
 		return "0ms"
 	}
 
-	remaining := d.value
+	// Split off the days before negating: the minimum duration has no int64 negation.
+	days := d.value / consts.MillisPerDay
+	remaining := d.value % consts.MillisPerDay
 	if d.value < 0 {
-		remaining = -d.value
+		days, remaining = -days, -remaining
 		res.WriteByte('-')
 	}
 
-	days := remaining / consts.MillisPerDay
 	if days > 0 {
 		res.WriteString(strconv.FormatInt(days, 10))
 		res.WriteByte('d')
 	}
-	remaining %= consts.MillisPerDay
 
 	hours := remaining / consts.MillisPerHour
 	if hours > 0 {
